@@ -67,13 +67,14 @@ CONFIGS = {
                                                                         polymer_reactivities={'>': 0.7, '<': 0.3}), aa=False),
     # atoms annotated with weights (the weight is not a mass)
     'weighted_atoms': dict(frags='{#PP=[<][C;w=0.5]C[C;w=0.5][>],#Q=[<]O[>]}', kw=dict(polymer_reactivities={'>': 0.5, '<': 0.5}), aa=True),
+    'explicit_hydrogen': dict(frags='{#PVA=[>]CC[<]O[H;0.5],#PE=[>]CC[<]}', kw=dict(polymer_reactivities={'>': 0.5, '<': 0.5}), aa=True),
     'double_bond_link': dict(frags='{#E=[$]=CC=[$],#T=[$]=C}', kw=dict(polymer_reactivities={'$2': 1.0}), aa=True),
     'cg_terminal': dict(frags='{#test=[<][#A][#B][#C][>][$A],#ter=[$B][#D]}',
                         kw=dict(fragment_masses={'test': 10, 'ter': 3}, terminal_bonds=['$A', '$B'],
                                 polymer_reactivities={'<': 0.3, '>': 0.3, '$A': 0.4, '$B': 0.0},
                                 fragment_reactivities={'$A': {'$A': 0.0, '$B': 1.0}, '$B': {'$A': 1.0, '$B': 0.0}}), aa=False),
 }
-QUICK = ['peo_linear', 'copolymer_labels', 'brush_terminal', 'cg_dextran', 'cg_terminal', 'cg_two_frags_orders', 'missing_key', 'table_with_foreign_keys', 'double_terminal', 'aa_with_masses', 'star_core', 'weighted_atoms', 'two_labels_on_one_atom', 'vinylimidazole', 'digit_labels', 'same_heavy_atoms']
+QUICK = ['peo_linear', 'copolymer_labels', 'brush_terminal', 'cg_dextran', 'cg_terminal', 'cg_two_frags_orders', 'missing_key', 'table_with_foreign_keys', 'double_terminal', 'aa_with_masses', 'star_core', 'weighted_atoms', 'two_labels_on_one_atom', 'vinylimidazole', 'digit_labels', 'same_heavy_atoms', 'explicit_hydrogen']
 
 
 class NoChoice(Exception):
@@ -112,7 +113,17 @@ class Stream:
         self.seed = str(a) if not symx.is_sym(a) else 'symseed'
         self.k = 0
 
+    pinned = ()      # seeds whose draws are not explored: always the first option with positive weight (earlier, unrelated samplers)
+
     def draw(self, n, weights=None):
+        if self.seed in self.pinned:
+            self.k += 1
+            if weights is None:
+                return 0
+            for i, w in enumerate(weights):
+                if w > 0:
+                    return i
+            raise symx.PathAbort()
         key = self.key(self.seed, self.k, n)
         self.k += 1
         if self.recorded is not None:
@@ -271,7 +282,7 @@ class SamplerProp(core.Prop):
             return r
         return self._real_run(M, shape, inp)
 
-    def _real_run(self, M, shape, inp, seeds=(7,)):
+    def _real_run(self, M, shape, inp, seeds=(7,), between=None):
         rs = Stream(recorded={k: int(v) for k, v in inp['draws'].items()})
         o_choice, o_choices, o_seed = random.choice, random.choices, random.seed
 
@@ -285,12 +296,17 @@ class SamplerProp(core.Prop):
                 raise NoChoice('empty sequence')
             if weights is not None and not any(float(x) > 0 for x in weights):
                 raise NoChoice('total weight zero')
-            return [seq[rs.draw(len(seq))]]
+            return [seq[rs.draw(len(seq), [float(x) for x in weights] if weights is not None else None)]]
         random.choice, random.choices, random.seed = choice, choices, (lambda a=None: rs.do_seed(a))
         try:
             if len(seeds) == 1:
                 return core.guard(self._run_once, M, shape, inp, seeds[0], False)
-            return [core.guard(self._run_once, M, shape, inp, sd, False) for sd in seeds]
+            out = []
+            for i, sd in enumerate(seeds):
+                if i and between is not None:
+                    between()
+                out.append(core.guard(self._run_once, M, shape, inp, sd, False))
+            return out
         finally:
             random.choice, random.choices, random.seed = o_choice, o_choices, o_seed
 
@@ -378,6 +394,10 @@ def wellformed_clauses(shape, o):
             cl.append(('known_fragment', False))
             continue
         tmpl = template(defs[nm])
+        if aa:
+            # compared on heavy atoms (a written hydrogen cannot be told from a completed one in sampler output)
+            tmpl = tmpl.copy()
+            tmpl.remove_nodes_from([n for n, d in list(tmpl.nodes(data=True)) if d.get('element') == 'H'])
         gcopy = nx.Graph()
         for n in heavy:
             gcopy.add_node(n, **nodes[n])
@@ -448,7 +468,8 @@ def wellformed_clauses(shape, o):
                 if nodes[n].get('atomname') != '%s%d' % (nodes[n].get('element'), idx):
                     ok = False
         cl.append(('atomnames_element_plus_running_index', ok))
-        cl += valence_clauses(mol)
+        from .c09 import written_hydrogen_weights
+        cl += valence_clauses(mol, written_hydrogen_weights(CONFIGS[shape['cfg']]['frags']))
     return cl
 
 
